@@ -1,6 +1,7 @@
 import XalanModel.C09.ChainProofs
 import XalanModel.Generated.C10_Priority
 import XalanModel.Generated.C09_KeyTable
+import XalanModel.Generated.C09_StepPredicate
 /-!
 # C09 — consumers that pre-filter candidate nodes by target data
 
